@@ -320,6 +320,8 @@ class DistributedInvocation(BaseInvocation[Params, Result]):
         # (log.py reads directly from context.py, so this is the single source of truth)
         context.set_runner_context(self.app.app_id, runner_ctx)
         previous_invocation_context = self.swap_context()
+        # a new execution of the body starts: deterministic workflow operations replay from 0
+        self._wf_deterministic = None
         try:
             if not self.app.orchestrator.is_authorize_to_run_by_concurrency_control(
                 self
